@@ -139,6 +139,7 @@ class RngRecorder:
         def setState(state):
             o["setState"](state)
             rec.shadow = {}
+            rec.ev("set_state")
 
         # push_sseq_from_seed calls the module-level push_sseq internally; Context.__enter__/__exit__ call push/pop
         R.push_sseq, R.push_sseq_from_seed, R.pop_sseq, R.spawn_sseq, R.setState = push_sseq, push_sseq_from_seed, pop_sseq, spawn_sseq, setState
